@@ -161,6 +161,11 @@ func (c *Ctx) Counter(name string) int64 {
 }
 
 func (c *Ctx) Set(name string, v interface{}) {
+	switch name { // keys the evidence schema types itself
+	case "evaluations", "distinct_nontrivial", "rule", "samples", "states", "transitions", "traces_validated_against_impl",
+		"obligations", "discharged", "checker_cmd", "trusted_base", "programs", "disagreements_checked", "explanation", "exhaustive":
+		name += "_info"
+	}
 	c.mu.Lock()
 	c.extra[name] = v
 	c.mu.Unlock()
